@@ -81,6 +81,10 @@ pub struct PairSpec {
 }
 
 fn std_setup(r: &mut Rng, init: u128, light: bool) -> (Value, Vec<PairSpec>) {
+    std_setup_with(r, init, light, false)
+}
+
+fn std_setup_with(r: &mut Rng, init: u128, light: bool, first_fee_free: bool) -> (Value, Vec<PairSpec>) {
     let dec = |r: &mut Rng| *r.pick(&[0u64, 6, 6, 8, 18, 18, 3]);
     // contract2 / contract3 are the addresses the two cw20 tokens will get: bank denoms spelled like a
     // token address exercise every place that could confuse the two kinds of asset
@@ -104,7 +108,13 @@ fn std_setup(r: &mut Rng, init: u128, light: bool) -> (Value, Vec<PairSpec>) {
         let (m0, m1) = if r.chance(1, 3) { (r.below(2000) as u128, r.below(2000) as u128) } else { (0, 0) };
         let (a, b) = if r.chance(1, 2) { (s.a.clone(), s.b.clone()) } else { (s.b.clone(), s.a.clone()) };
         // commission mostly small so that swaps pay out; sometimes extreme
-        let c = if r.chance(2, 3) { r.pick(&[nul(), st(3_000_000_000_000_000), st(30_000_000_000_000_000)]).clone() } else { r.pick(&rates).clone() };
+        // commission: mostly ordinary rates, a fee-free pair fairly often, sometimes extreme
+        let c = match r.below(20) {
+            0..=10 => r.pick(&[nul(), st(3_000_000_000_000_000), st(30_000_000_000_000_000)]).clone(),
+            11..=14 => st(0),
+            _ => r.pick(&rates).clone(),
+        };
+        let c = if first_fee_free && pairs.is_empty() { st(0) } else { c };
         pairs.push(json!({"a": a, "b": b, "commission": c, "whitelist": wl, "min0": st(m0), "min1": st(m1)}));
     }
     let setup = json!({"users": USERS, "owner": "owner", "init": st(init), "denoms": denoms, "tokens": tokens,
@@ -351,7 +361,17 @@ pub fn random_behaviour(r: &mut Rng, t: &mut Trace, steps: usize) {
                 t.run(&mut w, op);
             }
             54..=59 => {
-                // donation straight to the pair
+                // donation straight to the pair (sometimes of the pair's own LP tokens, which then sit on the pair)
+                if r.chance(1, 4) {
+                    let lp = tok(&w.pairs[i].lp);
+                    let holder = *r.pick(&["alice", "bob", "carol"]);
+                    let bal = balance(&w, &lp, holder);
+                    if bal > 0 {
+                        let op = json!({"op": "cw20_transfer", "token": id_of(&lp), "caller": holder, "dest": paddr, "amount": st(bal / 3 + 1)});
+                        t.run(&mut w, op);
+                        continue;
+                    }
+                }
                 let (info, rr) = if r.chance(1, 2) { (a0.clone(), r0) } else { (a1.clone(), r1) };
                 let amount = rel_amount(r, rr.max(100));
                 let op = if is_native(&info) {
@@ -607,8 +627,24 @@ fn malformed(r: &mut Rng, t: &mut Trace, w: &mut World, i: usize) {
             match r.below(5) {
                 0 => json!({"op": "router_ops", "caller": who, "operations": [], "min": nul(), "to": nul(), "funds": []}),
                 1 => {
-                    let ops = json!([{"offer_info": nat("ua"), "ask_info": a0.clone()}, {"offer_info": nat("ub"), "ask_info": a1.clone()}]);
-                    json!({"op": "router_ops", "caller": who, "operations": ops, "min": nul(), "to": nul(), "funds": [["ua", st(amount)]]})
+                    // two independent chains (two dangling outputs) through two registered pairs, every chain head funded
+                    let mut heads: Vec<(Value, Value)> = vec![];
+                    for j in 0..w.pairs.len() {
+                        let (b0, b1) = pair_infos(w, j);
+                        let (o, a) = if is_native(&b0) { (b0, b1) } else { (b1, b0) };
+                        if is_native(&o) && !heads.iter().any(|(ho, ha)| *ho == o || *ha == a || *ha == o || *ho == a) {
+                            heads.push((o, a));
+                        }
+                    }
+                    if heads.len() >= 2 {
+                        let ops = json!([{"offer_info": heads[0].0, "ask_info": heads[0].1}, {"offer_info": heads[1].0, "ask_info": heads[1].1}]);
+                        let funds = funds_for(&[(heads[0].0.clone(), amount), (heads[1].0.clone(), amount + 1)]);
+                        let min = if r.chance(1, 2) { nul() } else { st(0) };
+                        json!({"op": "router_ops", "caller": who, "operations": ops, "min": min, "to": opt_to(r), "funds": funds})
+                    } else {
+                        let ops = json!([{"offer_info": nat("ua"), "ask_info": a0.clone()}, {"offer_info": nat("ub"), "ask_info": a1.clone()}]);
+                        json!({"op": "router_ops", "caller": who, "operations": ops, "min": nul(), "to": nul(), "funds": [["ua", st(amount)], ["ub", st(amount)]]})
+                    }
                 }
                 k => {
                     let chain = random_route(r, w, 2);
@@ -700,7 +736,7 @@ pub fn inject_withdrawals(r: &mut Rng, t: &mut Trace, w: &mut World) {
 // matrix driver (C02, C09, C14)
 // ---------------------------------------------------------------------------------------------
 pub fn matrix_behaviour(r: &mut Rng, t: &mut Trace) {
-    let (setup, _) = std_setup(r, 1u128 << 100, false);
+    let (setup, _) = std_setup_with(r, 1u128 << 100, false, true);
     let mut w = World::build(&setup);
     t.reset(&w, &setup);
     let np = w.pairs.len();
@@ -817,6 +853,98 @@ pub fn matrix_behaviour(r: &mut Rng, t: &mut Trace) {
             let (tc, pc) = match r.below(4) { 0 => (json!(4), nul()), 1 => (nul(), json!(2)), _ => (json!(4), json!(2)) };
             t.run(&mut w, json!({"op": "fac_update_config", "caller": "owner", "new_owner": "newowner", "token_code_id": tc, "pair_code_id": pc}));
             t.run(&mut w, json!({"op": "q_fac_config"}));
+        }
+    }
+}
+
+// ---------------------------------------------------------------------------------------------
+// routes driver (C11, C12, C13): every chained route of 1..3 hops x entry x recipient x minimum around the quote
+// ---------------------------------------------------------------------------------------------
+fn chains_from(w: &World, start: &Value, hops: usize) -> Vec<Vec<(Value, Value)>> {
+    // all chains of exactly `hops` hops through distinct pairs starting at `start`
+    let n = w.pairs.len();
+    let mut out: Vec<(Vec<(Value, Value)>, Vec<usize>)> = vec![(vec![], vec![])];
+    for _ in 0..hops {
+        let mut next = vec![];
+        for (route, used) in out.iter() {
+            let cur = if route.is_empty() { start.clone() } else { route[route.len() - 1].1.clone() };
+            for j in 0..n {
+                if used.contains(&j) { continue; }
+                let (b0, b1) = pair_infos(w, j);
+                let nxt = if b0 == cur { Some(b1) } else if b1 == cur { Some(b0) } else { None };
+                if let Some(nx) = nxt {
+                    let mut r2 = route.clone();
+                    r2.push((cur.clone(), nx));
+                    let mut u2 = used.clone();
+                    u2.push(j);
+                    next.push((r2, u2));
+                }
+            }
+        }
+        out = next;
+    }
+    out.into_iter().map(|(r, _)| r).collect()
+}
+
+pub fn routes_behaviour(r: &mut Rng, t: &mut Trace) {
+    let (setup, _) = std_setup_with(r, 1u128 << 110, false, true);
+    let mut w = World::build(&setup);
+    t.reset(&w, &setup);
+    let np = w.pairs.len();
+    let mag = *r.pick(&[1_000_000u128, 1_000_000_000_000, 1u128 << 60]);
+    for i in 0..np {
+        let op = op_provide(&w, i, "alice", mag + r.below128(mag), mag * 2 + r.below128(mag), nul(), nul());
+        t.run(&mut w, op);
+    }
+    let assets = vec![nat("ua"), nat("ub"), tok(&w.tokens[0]), tok(&w.tokens[1])];
+    for start in assets.iter() {
+        for hops in 1..=3usize {
+            let chains = chains_from(&w, start, hops);
+            if chains.is_empty() { continue; }
+            let route = r.pick(&chains).clone();
+            for to in [nul(), Value::String("bob".to_string())] {
+                for mk in 0..4 {
+                    let amount = mag / 1000 + 1 + r.below(1000) as u128;
+                    if mk == 0 && r.chance(1, 2) {
+                        t.run(&mut w, json!({"op": "q_router_sim_fold", "amount": st(amount), "operations": route_ops(&route)}));
+                    }
+                    let q = t.run(&mut w, json!({"op": "q_router_sim", "amount": st(amount), "operations": route_ops(&route)}));
+                    let quote = if q["ok"].as_bool().unwrap_or(false) { limbs_to_u128(&q["amount"]) } else { 0 };
+                    let min = match mk { 0 => nul(), 1 => st(quote), 2 => st(quote.saturating_add(1)), _ => st(quote.saturating_sub(1)) };
+                    let op = op_route(&w, "carol", &route, amount, min, to.clone());
+                    t.run(&mut w, op);
+                }
+            }
+            // a stale quote: someone else trades on the first pair between the quote and the execution
+            let amount = mag / 500 + 7;
+            let q = t.run(&mut w, json!({"op": "q_router_sim", "amount": st(amount), "operations": route_ops(&route)}));
+            let quote = if q["ok"].as_bool().unwrap_or(false) { limbs_to_u128(&q["amount"]) } else { 0 };
+            for j in 0..np {
+                let (b0, b1) = pair_infos(&w, j);
+                if (b0 == route[0].0 && b1 == route[0].1) || (b1 == route[0].0 && b0 == route[0].1) {
+                    let op2 = op_swap(&w, j, "bob", &route[0].0, mag / 20 + 3, nul(), nul(), nul());
+                    t.run(&mut w, op2);
+                    break;
+                }
+            }
+            let op = op_route(&w, "carol", &route, amount, st(quote), Value::String("bob".to_string()));
+            t.run(&mut w, op);
+            // quote-then-swap on every pair of the route, both directions (C12 forward on fee-free and ordinary pairs)
+            for (o, _a) in route.iter() {
+                for j in 0..np {
+                    let (b0, b1) = pair_infos(&w, j);
+                    if b0 == *o || b1 == *o {
+                        let am = mag / 700 + 11;
+                        let pj = w.pairs[j].addr.clone();
+                        t.run(&mut w, json!({"op": "q_simulation", "pair": pj, "offer": asset(o, am)}));
+                        let op = op_swap(&w, j, "carol", o, am, nul(), nul(), nul());
+                        t.run(&mut w, op);
+                        let other = if b0 == *o { b1 } else { b0 };
+                        t.run(&mut w, json!({"op": "q_reverse", "pair": pj, "ask": asset(&other, am / 2 + 1)}));
+                        break;
+                    }
+                }
+            }
         }
     }
 }
@@ -1033,6 +1161,7 @@ pub fn run(driver: &str, seed: u64, behaviours: usize, steps: usize, out: &mut d
         match driver {
             "random" => random_behaviour(&mut r, &mut t, steps),
             "matrix" => matrix_behaviour(&mut r, &mut t),
+            "routes" => routes_behaviour(&mut r, &mut t),
             "registry" => registry_behaviour(&mut r, &mut t, steps.max(1), b),
             "withdraw" => withdraw_behaviour(&mut r, &mut t),
             other => panic!("unknown driver {}", other),
